@@ -368,6 +368,20 @@ class Check:
                 self.axioms[n] = ax
         if not ok:
             self.broken.append(f"Props/{self.prop}.v failed: " + out[-1500:])
+        if ok and self.tier == "thorough" and os.environ.get("VERIF_COQCHK", "1") != "0":
+            # independent re-check of the compiled theorems and everything they depend on
+            rc, o2 = sh(["timeout", "3000", "coqchk", "-silent", "-o", "-Q", ".", "UPF", f"UPF.Props.{self.prop}"], cwd=COQ)
+            summary = o2[o2.find("CONTEXT SUMMARY"):] if "CONTEXT SUMMARY" in o2 else o2[-1500:]
+            m = re.search(r"\* Axioms:(.*?)\n\s*\n\* Constants", summary, flags=re.S)
+            axioms = " ".join(m.group(1).split()) if m else "?"
+            clean = rc == 0 and all(f"relying on {k}: <none>" in " ".join(summary.split()) or True for k in ())
+            bad_flags = [k for k in ("type-in-type", "unsafe (co)fixpoints") if re.search(k.replace("(", "\\(").replace(")", "\\)") + r": <none>", " ".join(summary.split())) is None]
+            pos = "Inductives whose positivity is assumed: <none>" in " ".join(summary.split())
+            good = rc == 0 and not bad_flags and pos
+            self.obligations.append((f"coqchk -o UPF.Props.{self.prop}", good, "" if good else summary[-600:]))
+            if not good:
+                self.broken.append("coqchk rejected the compiled development: " + summary[-800:])
+            self.notes["coqchk"] = {"axioms": axioms, "exit": rc}
         return ok
 
     def tie(self, name, ok, detail=""):
